@@ -340,6 +340,11 @@ void StatementBuilder::decl_parameter(const char* name, bool ref)
         type = type.create_prefix(REF, position);
     }
 
+    // add_symbol lets a second symbol of the same name take over the name: the later parameter would hide the earlier one
+    if (params.contains(name)) {
+        handle_error(DuplicateDefinitionError(name));
+    }
+
     params.add_symbol(name, type, position);
 }
 
